@@ -43,6 +43,7 @@ def safeDT : DataType → Bool → Metadata → Bool
   | .map (.mk _ (.struct (.cons kf (.cons vf _))) _ _) _, _, _ => safeF kf && safeF vf
   | .struct fs, n, _ => safeFs fs && (!n || defSafeFs fs)
   | .union ufs _, _, _ => safeU ufs
+  | .dictionary _ v, _, _ => safeDT v false []     -- the value builder is the builder of the non-nullable value field
   | _, _, _ => true
 def safeF : Field → Bool
   | .mk _ dt n md => safeDT dt n md
@@ -93,7 +94,7 @@ theorem defSafe_iff : ∀ (b : B) (dt : DataType) (n : Bool) (md : Metadata), Sh
     simp only [DefSafe, defSafeDT]
     exact defSafeL_iff fs sfs hl
   | .dictionary _ idx _ _, _, n, _, h => by
-    simp only [Shape] at h; obtain ⟨⟨_, _, rfl⟩, hi, hn, _⟩ := h
+    simp only [Shape] at h; obtain ⟨⟨_, _, rfl, _⟩, hi, hn, _⟩ := h
     obtain ⟨p, t, v, vals, rfl⟩ := isIntLeaf_cases hi
     simp only [DefSafe, defSafeDT, hn, and_true]
   | .union _ fs _ _ _, _, _, _, h => by
@@ -163,7 +164,7 @@ theorem defSafeFirst_iff : ∀ (bl : BL) (ufs : UFields) (k : Nat), ShapeU bl uf
       simp only [B.isPlaceholder, this]; simpa using ih1
     | dictionary _ _ _ _ =>
       have hs := h.2.1; simp only [Shape] at hs
-      have : isUnknownVariant fdt fmd = false := by obtain ⟨⟨_, _, rfl⟩, _⟩ := hs; rfl
+      have : isUnknownVariant fdt fmd = false := by obtain ⟨⟨_, _, rfl, _⟩, _⟩ := hs; rfl
       simp only [B.isPlaceholder, this]; simpa using ih1
     | union _ _ _ _ _ =>
       have hs := h.2.1; simp only [Shape] at hs
@@ -208,10 +209,10 @@ theorem safe_iff_safeDT : ∀ (b : B) (dt : DataType) (n : Bool) (md : Metadata)
       defSafeL_iff fs sfs hl, hv]
     cases n <;> simp
   | .dictionary _ idx vals _, _, n, _, h => by
-    simp only [Shape] at h; obtain ⟨⟨_, _, rfl⟩, hi, hn, hu⟩ := h
+    simp only [Shape] at h; obtain ⟨⟨_, vdt, rfl, hsv⟩, hi, hn, hu⟩ := h
     obtain ⟨p, t, v, vs, rfl⟩ := isIntLeaf_cases hi
-    cases vals <;> simp [B.isUtf8B] at hu
-    simp [Safe, safeDT, B.isDict]
+    have := safe_iff_safeDT vals vdt false [] hsv
+    simp [Safe, safeDT, B.isDict, this]
   | .union _ fs _ _ _, _, _, _, h => by
     simp only [Shape] at h; obtain ⟨ufs, _, rfl, hu⟩ := h
     simp only [Safe, safeDT]
